@@ -17,6 +17,23 @@ def loop_src(loop, finite):
         return "var rec = function (n) { return %s rec(n+1) }; r = rec(0);" % ("n>30 ? n :" if finite else "")
     if loop == "mutual":
         return "var ra = function (n) { return %s rb(n+1) }; var rb = function (n) { return ra(n+1) }; r = ra(0);" % ("n>30 ? n :" if finite else "")
+    if loop == "ctor_recursion":
+        # the only control transfer on the cycle is NEW
+        return "var F = function (n) { %s new F(n+1) }; new F(0); r = 30;" % ("if (n<30)" if finite else "")
+    if loop == "ctor_mutual":
+        return "var A = function (n) { %s new B(n+1) }; var B = function (n) { new A(n+1) }; new A(0); r = 30;" % ("if (n<30)" if finite else "")
+    if loop == "method_recursion":
+        # ... CALL_METHOD
+        return "var o = { m: function (n) { return %s this.m(n+1) } }; r = o.m(0);" % ("n>30 ? n :" if finite else "")
+    if loop == "ctor_method_mutual":
+        return "var P = function (n) { this.n = n; %s this.go() }; P.prototype.go = function () { new P(this.n+1) }; new P(0); r = 30;" % ("if (n<30)" if finite else "")
+    if loop == "forof_growing":
+        # ... FOR_OF_NEXT over an array the body keeps extending
+        return "var a = [1]; var i = 0; for (var x of a) { i++; %s a.push(1) } r = i;" % ("if (i<40)" if finite else "")
+    if loop == "switch_continue":
+        return "var i=0; while (%s) { switch (i & 1) { case 0: i++; continue; default: i++; continue } } r = i;" % ("i<40" if finite else "true")
+    if loop == "logical_for":
+        return "var i=0; for (; %s; ) i++; r = i;" % ("i<40 && i>=0" if finite else "i<0 || i>=0")
     if loop == "regex_backtrack":
         return "r = /(a+)+b/.test(%s) ? 1 : 0;" % ("'aaab'" if finite else SUBJ)
     if loop == "regex_loop":
